@@ -273,7 +273,7 @@ fn op_c12_sweep(req: &Value) -> Value {
     };
 
     json!({
-        "strings": sw.strings, "tokens": sw.tokens, "inner_nodes": sw.inner_nodes,
+        "strings": sw.strings, "pumped": sw.pumped, "tokens": sw.tokens, "inner_nodes": sw.inner_nodes,
         "max_depth": sw.max_depth,
         "distinct_token_kind_sequences": sw.distinct_token_kind_sequences,
         "distinct_tree_shapes": sw.distinct_tree_shapes,
@@ -490,6 +490,28 @@ fn op_c17_rationals(req: &Value) -> Value {
         };
         let mut n = big(&mut rng, nb);
         let mut d = big(&mut rng, db_);
+        // Structured values: limb-aligned (all low 32/64-bit digits zero), powers of two and of ten and their
+        // neighbours. A decoder that looks at the wrong end of the digit vector, or a fixed-width fast path,
+        // fails on exactly these and on (almost) no uniformly random value.
+        let structured = |rng: &mut vharness::Rng| -> num::BigInt {
+            let m = num::BigInt::from([1u64, 1, 3, 5, 7, 255, 1_000_003, 0xffff_ffff, 0x1_0000_0001][rng.below(9) as usize]);
+            match rng.below(5) {
+                0 => m << (32 * (1 + rng.below(8)) as usize),
+                1 => m << (64 * (1 + rng.below(4)) as usize),
+                2 => (num::BigInt::from(1u32) << ([7u64, 8, 15, 16, 31, 32, 33, 63, 64, 65, 127, 128, 129, 255, 256][rng.below(15) as usize] as usize)) + num::BigInt::from(rng.range(-2, 2)),
+                3 => m * num::pow(num::BigInt::from(10u32), rng.below(60) as usize),
+                _ => (m << (rng.below(300) as usize)) + num::BigInt::from(rng.range(-1, 1)),
+            }
+        };
+        if rng.chance(250) {
+            n = structured(&mut rng);
+        }
+        if rng.chance(120) {
+            d = structured(&mut rng);
+            if d < num::BigInt::from(1u32) {
+                d = num::BigInt::from(1u32);
+            }
+        }
         if num::Zero::is_zero(&d) {
             d = num::BigInt::from(1u32);
         }
